@@ -256,6 +256,7 @@ var (
 		`^"(?:[^\\"]|`+ // non-escape sequences
 			`\\(?:`+
 			`[abfnrtv\\"]|`+ // standard escapes
+			`/|`+ // the escaped solidus of JSON
 			`[0-7]{3}|`+ // octal-encoded ascii
 			`x[[:xdigit:]]{2}|`+ // one-byte unicode
 			`u[[:xdigit:]]{4}|`+ // two-byte unicode
